@@ -265,3 +265,8 @@ def q__run_mapping(ev, state, node):
         state.assume(dict_dom(r)[literal(key).term])
     _bump(state, 'mapping_returned')
     return r
+
+
+@method('Proc', 'terminate')
+def m_terminate(ev, state, node, recv, ref):
+    return NONEVAL
